@@ -75,6 +75,7 @@ namespace hv
             if (g == "SgFb") return wire_sub<SgFb>(w, how, x, p, q, id);
             if (g == "SgOwn") return wire_sub<SgOwn>(w, how, x, p, q, id);
             if (g == "SgSched") return wire_sub<SgSched>(w, how, x, p, q, id);
+            if (g == "SgSchedV") return wire_sub<SgSchedV>(w, how, x, p, q, id);
             if (g == "SgDeep") return wire_sub<SgDeep>(w, how, x, p, q, id);
             if (g == "SgFail") return wire_sub<SgFail>(w, how, x, p, q, id);
             throw std::invalid_argument("scenario: unknown sub-graph " + g);
@@ -137,6 +138,7 @@ namespace hv
             else if (kind == "ticker") out = wire<Ticker>(w, Int{st.geti("count", 3)}, Int{st.geti("period", 1)}, id);
             else if (kind == "timer0") out = wire<Timer0>(w, id);
             else if (kind == "timer1") out = wire<Timer1>(w, arg(0), id);
+            else if (kind == "timer1v") out = wire<Timer1V>(w, arg(0), id);
             else if (kind == "tobool")
             {
                 throw std::invalid_argument("scenario: tobool only inside ite");
